@@ -118,7 +118,8 @@ pub fn c01(a: &Args) {
     lexical_variants(a, &mut out, &mut rng);
     corpus_c01(a, &mut out);
     crate::cli_props::cli_pass(a, &mut out, &mut rng, &["count", "count-stdin"]);
-    out.finish("(+ CLI pass: the rebuilt binary's `count` on a sample of the models, judged by the same oracles) G1: every satisfiable function over 1..3 features x every order x {d4 tree, d4 shared, d4 shared+f-edges, c2d tree, c2d shared} (sampled in quick tier), G3: random well-formed d4 / c2d circuits (n<=9); a case is non-trivial when the function is neither constant true nor has <3 lines; distinct by file text; lexical variants: the raw lines of generated files with blanks doubled / turned into tabs, leading zeros, dropped or doubled terminators, trailing blanks and junk, signs: the real loader (array or panic) vs the character-level lexer models + loader model");
+    crate::shifted_props::shifted(a, &mut out, &mut rng, &["count"]);
+    out.finish("(+ renumbered models: features base+1..base+n for base 126 / 254 / 1020, judged by the small model's truth table: count) (+ CLI pass: the rebuilt binary's `count` on a sample of the models, judged by the same oracles) G1: every satisfiable function over 1..3 features x every order x {d4 tree, d4 shared, d4 shared+f-edges, c2d tree, c2d shared} (sampled in quick tier), G3: random well-formed d4 / c2d circuits (n<=9); a case is non-trivial when the function is neither constant true nor has <3 lines; distinct by file text; lexical variants: the raw lines of generated files with blanks doubled / turned into tabs, leading zeros, dropped or doubled terminators, trailing blanks and junk, signs: the real loader (array or panic) vs the character-level lexer models + loader model");
 }
 
 /// the same files, but the text is not in the writer's normal form: the real lexers + loader against the
@@ -264,7 +265,8 @@ pub fn c02(a: &Args) {
     });
     corpus_c02(a, &mut out, &mut r2);
     crate::cli_props::cli_pass(a, &mut out, &mut rng, &["count", "count-queries"]);
-    out.finish("(+ CLI pass: the rebuilt binary's `count / count-queries` on a sample of the models) every model of the C01 space x (all 3^n consistent partial assignments for n<=5 quick / n<=7 thorough, else 200 random ones) + random lists with duplicates/contradictions of lengths 1,2,3,5,19,20,21,22,40; non-trivial = non-constant function and non-empty list; distinct by (file text, list)");
+    crate::shifted_props::shifted(a, &mut out, &mut rng, &["query"]);
+    out.finish("(+ renumbered models: features base+1..base+n for base 126 / 254 / 1020, judged by the small model's truth table: query) (+ CLI pass: the rebuilt binary's `count / count-queries` on a sample of the models) every model of the C01 space x (all 3^n consistent partial assignments for n<=5 quick / n<=7 thorough, else 200 random ones) + random lists with duplicates/contradictions of lengths 1,2,3,5,19,20,21,22,40; non-trivial = non-constant function and non-empty list; distinct by (file text, list)");
 }
 
 fn corpus_c02(a: &Args, out: &mut Out, rng: &mut Rng) {
@@ -420,7 +422,8 @@ pub fn c03(a: &Args) {
         }
     }
     crate::cli_props::cli_pass(a, &mut out, &mut rng, &["sat"]);
-    out.finish("(+ CLI pass: the rebuilt binary's `sat` on a sample of the models, judged by the same oracles) same lists as C02; sat, sat_immutable, stream sat vs truth table; incremental sat_propagate with a kept mark vector on random chunkings (compared while earlier answers are 'satisfiable'); corpus: sat vs count>0 on every literal and random lists");
+    crate::shifted_props::shifted(a, &mut out, &mut rng, &["sat"]);
+    out.finish("(+ renumbered models: features base+1..base+n for base 126 / 254 / 1020, judged by the small model's truth table: sat) (+ CLI pass: the rebuilt binary's `sat` on a sample of the models, judged by the same oracles) same lists as C02; sat, sat_immutable, stream sat vs truth table; incremental sat_propagate with a kept mark vector on random chunkings (compared while earlier answers are 'satisfiable'); corpus: sat vs count>0 on every literal and random lists");
 }
 
 // ------------------------------------------------------------------------------------------------
@@ -542,7 +545,8 @@ pub fn c04(a: &Args) {
         }
     }
     crate::cli_props::cli_pass(a, &mut out, &mut rng, &["count-features"]);
-    out.finish("(+ CLI pass: the rebuilt binary's `count-features` on a sample of the models, judged by the same oracles) every model of the C01 space: per-feature table vs truth table (cardinality per feature, row order, ratio within 1e-12 of card/total), equality with the single-literal count; corpus: table vs execute_query([f]) and CSV rows; non-trivial = non-constant function; distinct by file text");
+    crate::shifted_props::shifted(a, &mut out, &mut rng, &["table"]);
+    out.finish("(+ renumbered models: features base+1..base+n for base 126 / 254 / 1020, judged by the small model's truth table: table) (+ CLI pass: the rebuilt binary's `count-features` on a sample of the models, judged by the same oracles) every model of the C01 space: per-feature table vs truth table (cardinality per feature, row order, ratio within 1e-12 of card/total), equality with the single-literal count; corpus: table vs execute_query([f]) and CSV rows; non-trivial = non-constant function; distinct by file text");
 }
 
 // ------------------------------------------------------------------------------------------------
@@ -635,5 +639,6 @@ pub fn c05(a: &Args) {
         }
     }
     crate::cli_props::cli_pass(a, &mut out, &mut rng, &["core", "anomalies"]);
-    out.finish("(+ CLI pass: the rebuilt binary's `core / anomalies` on a sample of the models, judged by the same oracles) every model of the C01 space x assumption lists of length 0..3 (all of length<=2 for n<=5, sampled length 3) x every candidate literal: get_core, core_dead/core/dead_with_assumptions, stream core (plain and per-candidate) vs truth table; corpus: core literal iff count of its complement is 0");
+    crate::shifted_props::shifted(a, &mut out, &mut rng, &["core"]);
+    out.finish("(+ renumbered models: features base+1..base+n for base 126 / 254 / 1020, judged by the small model's truth table: core) (+ CLI pass: the rebuilt binary's `core / anomalies` on a sample of the models, judged by the same oracles) every model of the C01 space x assumption lists of length 0..3 (all of length<=2 for n<=5, sampled length 3) x every candidate literal: get_core, core_dead/core/dead_with_assumptions, stream core (plain and per-candidate) vs truth table; corpus: core literal iff count of its complement is 0");
 }
